@@ -201,9 +201,7 @@ def advance (st : LState) : Bool × LState :=
       let s := lexString c cs []
       (true, { st with tok := TOK_STRING, val := .str s.1, pending := s.2 })
     else if c == 35 then
-      match hcs : cs with
-      | 123 :: r => (true, mkIdent st [35, 123] r)
-      | r => advance { st with pending := skipComment r }
+      advance { st with pending := skipComment cs }
     else if isDigit c then
       let d := lexDigit (c :: cs) []
       (true, { st with tok := d.1, val := d.2.1, pending := d.2.2 })
@@ -220,7 +218,7 @@ decreasing_by
     have h2 := congrArg List.length hp
     simp [ss] at h2
   · simp [st] at h1; omega
-  · have h3 := skipComment_length r
+  · have h3 := skipComment_length cs
     simp [st] at h1; omega
 
 
